@@ -7,9 +7,11 @@ mod enc;
 mod gf256;
 mod guard;
 mod kernels;
+mod linear;
 mod obj;
 mod overhead;
 mod params;
+mod scn;
 mod slabobs;
 mod stream;
 mod util;
@@ -24,18 +26,35 @@ fn main() {
         std::process::exit(2);
     }
     let opts = util::Opts::parse(&args[2..]);
-    match args[1].as_str() {
-        "gf256" => gf256::run(&opts),
-        "enc" => enc::run(&opts),
-        "objreplay" => obj::replay(&opts),
-        "objlog" => obj::log(&opts),
-        "codec-object" => codec::run_object(&opts),
-        "codec-block" => codec::run_block(&opts),
-        "findfail" => codec::find_fail(&opts),
-        "overhead" => overhead::run(&opts),
-        "stream" => stream::run(&opts),
-        "kernels" => kernels::run(&opts),
-        "slabobs" => slabobs::run(&opts),
+    util::quiet_panics();
+    let r = std::panic::catch_unwind(|| dispatch(&args[1], &opts));
+    if r.is_err() {
+        // a panic escaped a logged call: data about the code under test if it was raised inside /repo, a driver bug otherwise
+        let last = util::LAST_PANIC.lock().map(|g| g.clone()).unwrap_or_default();
+        if last.starts_with("/repo/") {
+            println!("PANIC-IN-CODE-UNDER-TEST {last}");
+            std::process::exit(3);
+        }
+        println!("DRIVER-BUG {last}");
+        std::process::exit(4);
+    }
+}
+
+fn dispatch(cmd: &str, opts: &util::Opts) {
+    match cmd {
+        "gf256" => gf256::run(opts),
+        "enc" => enc::run(opts),
+        "objreplay" => obj::replay(opts),
+        "objlog" => obj::log(opts),
+        "codec-object" => codec::run_object(opts),
+        "codec-block" => codec::run_block(opts),
+        "findfail" => codec::find_fail(opts),
+        "overhead" => overhead::run(opts),
+        "stream" => stream::run(opts),
+        "kernels" => kernels::run(opts),
+        "slabobs" => slabobs::run(opts),
+        "linear" => linear::run(opts),
+        "scenarios" => scn::run_all(&opts.str("out", "scn.ndjson"), opts.u64("seed", 1), &opts.str("profile", "release"), opts.thorough()),
         // self-test of the guard allocator: must die with SIGSEGV under RQV_GUARD=1 / 2 respectively
         "guardtest" => {
             let v = vec![7u8; 41];
@@ -46,8 +65,8 @@ fn main() {
             };
             println!("survived mode={} value={}", guard::active_mode(), x);
         }
-        "paramlog" => params::log(&opts),
-        "wrapreplay" => params::replay(&opts),
+        "paramlog" => params::log(opts),
+        "wrapreplay" => params::replay(opts),
         other => {
             eprintln!("unknown command {other}");
             std::process::exit(2);
